@@ -49,6 +49,12 @@ def run(c):
                       tag="crash sweep victim 3, 4 heights")
         outs += (g2.get("extra") or {}).pop("outcomes", [])
         c.absorb(g2)
+    # the same sweep with the victim's WAL rotated after every second record (the log of one height spread over many
+    # files, most without an #ENDHEIGHT marker): the search for the last marker and the replay must cross files
+    g3 = c.gotest("node", "TestCrashSweep", env=dict(CRASH_HEIGHTS=3, CRASH_WORKERS=8, CRASH_VICTIM=1, CRASH_MODES="flush",
+                  CRASH_ROTATE=(2 if c.seed % 2 else 3), CRASH_STRIDE=(1 if th else 2)), timeout=3000, tag="crash sweep, rotating WAL")
+    outs += (g3.get("extra") or {}).pop("outcomes", [])
+    c.absorb(g3)
     # conformance: the real restart computes what the specification says for that crash point
     compared = 0
     for o in outs:
